@@ -31,6 +31,8 @@ func checkC16(r *Run) {
 	uf := r.W.userFunctionEval()
 	r.Rule("R10", "the parameter list of a function literal is its own: no list of nodes the parser stores into the tree or returns is built in a buffer kept in the parser or a package variable", 1)
 	parserBuffersRule(r, "R10")
+	r.Rule("R11", "who may open a return object: the output kept in a return object is read only by the sink, the top-level, block, loop, call and user-function evaluators and helpers of those that nobody else calls (an output tag that unwraps it lets the statements behind a `return` run)", 1)
+	returnObjectOpenersRule(r, "R11")
 	r.Rule("R9", "the scope of a call extends the caller's: the scope installed is New() of the scope current on entry, nothing but parameter names is Set on it before the body runs, and the caller's scope is back at every exit; a call that does not fail has run the body", 1)
 	callScopeRuleSSA(r, "R9")
 	activationBuffersRule(r, "R8", func(fn *ssa.Function) bool {
